@@ -338,6 +338,9 @@ impl Direct {
                     let _ = self.world.env.krill.repo_manager()
                         .update_rrdp_if_needed();
                 }
+                else if step.kind == "renumber" {
+                    let _ = self.world.renumber_class();
+                }
                 else {
                     let mut one = input.clone();
                     one.body = step.body.clone();
